@@ -26,7 +26,6 @@ func (p Params) Name() string {
 	return fmt.Sprintf("%s-preinit%v-slow%v-pb%d", p.Actors, p.PreInit, p.Slow, p.Preempt)
 }
 
-
 type shutRec struct {
 	Err         error
 	Cancellable bool
